@@ -44,6 +44,10 @@ def param_pairs(rng):
 	       ((k, p), (k, p.lower()), 'prefix-case-only'),
 	       ((k, p), (k, p), 'equal'),
 	       ((k, p), (11, 'ATGAC'), 'other-side-is-the-default')]   # explicit options equal to the built-in defaults are still explicit
+	# the reverse complement of the prefix is a different prefix (both strands are searched for the SAME prefix; the k-mer sets differ)
+	np_ = rng.choice(['ACG', 'GAT', 'CC', 'AC', 'ATGAC'])
+	rc = np_[::-1].translate(str.maketrans('ACGT', 'TGCA'))
+	out.append(((k, np_), (k, rc), 'prefix-is-reverse-complement'))
 	return out
 
 
@@ -322,7 +326,7 @@ def run_shard(sh, ctx):
 def finalize(merged, tier, seed, inconclusive):
 	c = merged['counters']
 	need = ['mismatch:query -s', 'mismatch:dist -k/-p == --qs, --rs differs', 'mismatch:dist -k/-p == --qs, --use-db differs', 'mismatch:dist --qs --rs', 'mismatch:dist --qs --use-db', 'mismatch:dist -k/-p + --qs / ref files', 'mismatch:dist -k/-p + --rs / query listfile',
-	        'mismatch:dist -k without -p', 'mismatch:signatures create --db-params + -k/-p', 'relation:k-differs', 'relation:prefix-differs', 'relation:both-differ', 'relation:other-side-is-the-default',
+	        'mismatch:dist -k without -p', 'mismatch:signatures create --db-params + -k/-p', 'relation:k-differs', 'relation:prefix-differs', 'relation:both-differ', 'relation:other-side-is-the-default', 'relation:prefix-is-reverse-complement',
 	        'control:dist --qs --rs', 'control:dist query files + --use-db (inferred)', 'control:query files', 'control:signatures create --db-params', 'control:tree -s', 'api_parse_calls:shared-dict', 'api_parse_database_switches']
 	for n in need:
 		if c.get(n, 0) == 0:
